@@ -14,7 +14,7 @@ def table : List (String × List String × List String) := [
   ("field_BH_cuboid.BHJM_magnet_cuboid", ["1e-15"], ["==", "==", "==", "<", "<", "<", "<", "<", "<", "==", "==", "==", "=="]),
   ("field_BH_triangle.norm_vector", [], []),
   ("field_BH_triangle.solid_angle", ["2.0", "6.2831853"], [">"]),
-  ("field_BH_triangle.triangle_Bfield", ["1e-12", "1.0", "1.0", "4.0"], [">"]),
+  ("field_BH_triangle.triangle_Bfield", ["1e-30", "4.0"], ["==", "<", "<=", "<", ">", ">=", "<"]),
   ("field_BH_triangle.BHJM_triangle", ["0.0"], ["==", "==", "==", "=="]),
   ("field_BH_tetrahedron.check_chirality", [], ["<"]),
   ("field_BH_tetrahedron.point_inside", [], ["==", "==", "!=", ">=", "<=", "<="]),
